@@ -103,7 +103,13 @@ Fixpoint walk_files (dec : rule) (pkgs : list pkg) (i : nat) (me : pkg) (m : own
   | [] => WOk m u
   | h :: more =>
       match h_kind h with
-      | KLink => walk_files dec pkgs i me m u more
+      | KLink =>
+          (* a hard link is another NAME for what its target holds at that moment:
+             whatever happens to the target's name later, this name keeps it *)
+          match own_get m (h_link h) with
+          | Some (j, gs, KReg) => walk_files dec pkgs i me ((h_path h, (j, gs, KReg)) :: m) u more
+          | _ => walk_files dec pkgs i me m u more
+          end
       | _ =>
           match own_get m (h_path h) with
           | None => walk_files dec pkgs i me ((h_path h, (i, h_sum h, h_kind h)) :: m) u more
@@ -212,6 +218,9 @@ Definition kind_clash_at (pkgs : list pkg) (p : path) : bool :=
   | k :: ks => existsb (fun k' => negb (kind_eqb k k')) ks
   end.
 
+Definition is_link_path (pkgs : list pkg) (p : path) : bool :=
+  existsb (fun h => path_eqb (h_path h) p && kind_eqb (h_kind h) KLink) (flat_map p_files pkgs).
+
 Definition walk_tags (r : walk_res) : list string :=
   match r with WOk _ u | WConflict _ u | WFail u | WStop _ _ _ u => u end.
 
@@ -224,7 +233,11 @@ Definition check_rules (b : backend) (pkgs : list pkg) (e : eclass) (tree : list
       | WConflict _ _, _ => ["viol:conflict-reported-as-other-error"]
       | WOk m _, ENoError =>
           if existsb (fun x => kind_clash_at pkgs (fst x) && negb (winner_present tree (fst x) (snd x))) m
-          then ["viol:kind-clash-succeeds-silently"] else ["viol:wrong-winner"]
+          then ["viol:kind-clash-succeeds-silently"]
+          else if existsb (fun x => is_link_path pkgs (fst x) &&
+                                    negb (match own_get m (fst x) with Some v => winner_present tree (fst x) v | None => true end)) m
+          then ["viol:hardlink-name-changed-content"]   (* another name of a node does not show what it was linked to *)
+          else ["viol:wrong-winner"]
       | WOk _ _, _ => ["viol:spurious-failure"]
       | _, _ => ["viol:rules"]
       end in
